@@ -135,6 +135,11 @@ def _props(consts):
     return S_PROPS if consts["WithSched"] else []
 
 
+def _js(consts):
+    """Constants as they go into a replay file (sets as sorted lists)."""
+    return {k: (sorted(v) if isinstance(v, (set, frozenset)) else v) for k, v in consts.items()}
+
+
 def _acts_of(res):
     return [dict(s.get("act", {})) for _, s in res.trace()]
 
@@ -151,7 +156,7 @@ class _Reporter:
         n = self.by_sig[sig] = self.by_sig.get(sig, 0) + 1
         if n <= MAX_REPORT_PER_SIGNATURE:
             self.ctx.violation("%s: after %s the real objects differ from Timers.tla: %s" % (label, act, divergence["diff"]),
-                               replay={"xtimer": "replay", "constants": consts, "actions": history, "divergence": divergence},
+                               replay={"xtimer": "replay", "constants": _js(consts), "actions": history, "divergence": divergence},
                                signature=sig)
 
 
@@ -353,9 +358,12 @@ def run(ctx):
                [(w, S_WITNESS_CONSTS) for w in S_WITNESSES]
         for i, (w, c) in enumerate(wits):
             jobs.append(lambda i=i, w=w, c=c: witness_job(i, w, c))
+    trace_job, trace_eval = traces_prepare(ctx, pops)
+    jobs.append(trace_job)
     import time as _time
     t_tlc = _time.time()
-    results = _parallel(jobs, width=5)
+    results = _parallel(jobs, width=6)
+    trace_result = results.pop()
     ctx.note("wall_tlc_exhaustive_s", round(_time.time() - t_tlc, 1))
     t_rep = _time.time()
     r_int = results[:len(intended)]
@@ -369,13 +377,13 @@ def run(ctx):
         if res.violation:
             spec_broken = True
             ctx.violation("TLC: %s violated on Timers.tla (intended design, %s)" % (res.invariant, lab),
-                          replay={"xtimer": "spec", "constants": c, "trace": _acts_of(res)}, signature="spec:%s" % res.invariant)
+                          replay={"xtimer": "spec", "constants": _js(c), "trace": _acts_of(res)}, signature="spec:%s" % res.invariant)
     for (lab, c), res in zip(bigs, r_big):
         ctx.add_tlc(res, "exhaustive, " + lab)
         if res.violation:
             spec_broken = True
             ctx.violation("TLC: %s violated on Timers.tla (%s)" % (res.invariant, lab),
-                          replay={"xtimer": "spec", "constants": c, "trace": _acts_of(res)}, signature="spec:%s" % res.invariant)
+                          replay={"xtimer": "spec", "constants": _js(c), "trace": _acts_of(res)}, signature="spec:%s" % res.invariant)
     for (w, c), res in zip(wits, r_wit):
         if not res.violation or res.invariant != w:
             raise tlc.MachineryError("vacuity witness %s is not reachable (%s)" % (w, res.error or "no violation"))
@@ -393,7 +401,7 @@ def run(ctx):
         if res.violation:
             spec_broken = True
             ctx.violation("TLC: %s violated on Timers.tla (%s)" % (res.invariant, lab),
-                          replay={"xtimer": "spec", "constants": c, "trace": _acts_of(res)}, signature="spec:%s" % res.invariant)
+                          replay={"xtimer": "spec", "constants": _js(c), "trace": _acts_of(res)}, signature="spec:%s" % res.invariant)
             continue
         cov = res.coverage()
         expected = [a for a in (T_ACTIONS if c["WithTimers"] else S_ACTIONS) if a != "Tick" or c["MaxTime"] > 0]
@@ -429,9 +437,7 @@ def run(ctx):
     ctx.note("replay_steps", tot["steps"])
 
     ctx.note("wall_replay_s", round(_time.time() - t_rep, 1))
-    t_tr = _time.time()
-    traces_tier(ctx, pops)
-    ctx.note("wall_traces_s", round(_time.time() - t_tr, 1))
+    trace_eval(trace_result)
     ctx.evaluations = tot["steps"] + ctx.extra.get("traces_recorded", 0)
     ctx.assumptions += [
         "list.append / list.pop / heappush / heappop / set.add / set.discard / PriorityQueue.get/put are atomic (GIL, queue mutex)",
@@ -528,14 +534,16 @@ def trace_consts(quick, pops):
             "NK": 3, "SDelays": {0, 1, 2}, "MaxIns": 7, "RaiseTasks": {1}, "AgainTasks": {2}, "AgainDelay": 1, "MaxRuns": 3}
 
 
-def traces_tier(ctx, pops):
+def traces_prepare(ctx, pops):
+    """Record the random runs and build the self-test traces; returns (job for _parallel, evaluation function)."""
     from harness.replay import timers as rt
     consts = trace_consts(ctx.quick, pops)
     n_tr = 250 if ctx.quick else 4000
     traces = [rt.record(consts, ctx.rng, max_events=60) for _ in range(n_tr)]
     good = len(traces)
     # binding self-test: a corrupted field (one per part) and a dropped event must be rejected
-    victim = next(t for t in traces if len(t) >= 20 and not any(e["e"] == "Anomaly" for e in t))
+    victim = next(t for t in traces if len(t) >= 20 and not any(e["e"] == "Anomaly" for e in t)
+                  and any(e["e"] in ("AddTimer", "SvcStep") for e in t) and any(e["e"] in ("Schedule", "ScheduleUnique", "LGet") for e in t))
     it = next(i for i, e in enumerate(victim) if e["e"] in ("AddTimer", "SvcStep"))
     is_ = next(i for i, e in enumerate(victim) if e["e"] in ("Schedule", "ScheduleUnique", "LGet"))
     bad1 = copy.deepcopy(victim)
@@ -543,43 +551,50 @@ def traces_tier(ctx, pops):
     bad2 = copy.deepcopy(victim)
     bad2[is_]["post"]["cnt"] += 1
     bad3 = copy.deepcopy(victim)
-    idrop = next(i for i, e in enumerate(bad3) if e["e"] not in ("Schedule", "ScheduleUnique") or e["post"]["cnt"] > (bad3[i - 1]["post"]["cnt"] if i else 0))
+    idrop = next(i for i, e in enumerate(bad3) if e["e"] in ("Tick", "AddTimer", "SvcMerge", "LTop", "LGet"))
     del bad3[idrop]
     traces += [bad1, bad2, bad3]
-    cfg = tlc.write_cfg(os.path.join(ctx.scratch, "trace.cfg"), init="TraceInit", next="TraceNext", constants=consts,
-                        invariants=T_INV + S_INV, constraints=["Progress"], postcondition="Done", deadlock=False)
-    tres, prog = tlc.validate_traces("Trace_Timers", cfg, traces, ctx.scratch, timeout=2400)
-    ctx.add_tlc(tres, "trace validation")
-    if tres.violation:
-        ctx.violation("invariant %s violated in a state of a recorded execution" % tres.invariant,
-                      replay={"xtimer": "trace-inv", "trace": [dict(s) for _, s in tres.trace()][-3:]},
-                      signature="trace-inv:%s" % tres.invariant)
-        return
-    if prog[good] != it + 1 or prog[good + 1] != is_ + 1 or prog[good + 2] > len(bad3):
-        raise tlc.MachineryError("binding self-test failed: corrupted/dropped trace accepted (%s, %s, %s; expected %s, %s, <=%s)"
-                                 % (prog[good], prog[good + 1], prog[good + 2], it + 1, is_ + 1, len(bad3)))
-    ctx.note("binding_selftest", {"corrupted_rejected": 2, "dropped_rejected": 1})
-    accepted = 0
-    by_sig = {}
-    for i in range(good):
-        t = traces[i]
-        if prog[i] == len(t) + 1:
-            accepted += 1
-            if any(e["e"] in ("Cancel", "XFlag", "RunTask") for e in t):
-                ctx.nontrivial(("trace", i, len(t)))
-            continue
-        ev = t[prog[i] - 1]
-        name = ev.get("during", {}).get("e") if ev["e"] == "Anomaly" else ev["e"]
-        sig = "trace:%s" % name
-        by_sig[sig] = by_sig.get(sig, 0) + 1
-        if by_sig[sig] <= MAX_REPORT_PER_SIGNATURE:
-            ctx.violation("recorded execution of the real objects rejected by Timers.tla at event %d: %s" % (prog[i], ev),
-                          replay={"xtimer": "trace", "constants": consts, "events": t[:prog[i]]}, signature=sig)
-    ctx.sample({"direction": "code->spec", "events": [{k: v for k, v in e.items() if k != "post"} for e in traces[0][:20]]})
-    ctx.traces_validated += accepted
-    ctx.note("traces_recorded", good)
-    ctx.note("traces_accepted", accepted)
-    ctx.note("trace_constants", {k: (sorted(v) if isinstance(v, set) else v) for k, v in consts.items()})
+
+    def job():
+        d = _subdir(ctx, "traces")
+        cfg = tlc.write_cfg(os.path.join(d, "trace.cfg"), init="TraceInit", next="TraceNext", constants=consts,
+                            invariants=T_INV + S_INV, constraints=["Progress"], postcondition="Done", deadlock=False)
+        return tlc.validate_traces("Trace_Timers", cfg, traces, d, timeout=2400)
+
+    def evaluate(result):
+        tres, prog = result
+        ctx.add_tlc(tres, "trace validation")
+        if tres.violation:
+            ctx.violation("invariant %s violated in a state of a recorded execution" % tres.invariant,
+                          replay={"xtimer": "trace-inv", "trace": [dict(s) for _, s in tres.trace()][-3:]},
+                          signature="trace-inv:%s" % tres.invariant)
+            return
+        if prog[good] != it + 1 or prog[good + 1] != is_ + 1 or prog[good + 2] > len(bad3):
+            raise tlc.MachineryError("binding self-test failed: corrupted/dropped trace accepted (%s, %s, %s; expected %s, %s, <=%s)"
+                                     % (prog[good], prog[good + 1], prog[good + 2], it + 1, is_ + 1, len(bad3)))
+        ctx.note("binding_selftest", {"corrupted_rejected": 2, "dropped_rejected": 1})
+        accepted = 0
+        by_sig = {}
+        for i in range(good):
+            t = traces[i]
+            if prog[i] == len(t) + 1:
+                accepted += 1
+                if any(e["e"] in ("Cancel", "XFlag", "RunTask") for e in t):
+                    ctx.nontrivial(("trace", i, len(t)))
+                continue
+            ev = t[prog[i] - 1]
+            name = ev.get("during", {}).get("e") if ev["e"] == "Anomaly" else ev["e"]
+            sig = "trace:%s" % name
+            by_sig[sig] = by_sig.get(sig, 0) + 1
+            if by_sig[sig] <= MAX_REPORT_PER_SIGNATURE:
+                ctx.violation("recorded execution of the real objects rejected by Timers.tla at event %d: %s" % (prog[i], ev),
+                              replay={"xtimer": "trace", "constants": _js(consts), "events": t[:prog[i]]}, signature=sig)
+        ctx.sample({"direction": "code->spec", "events": [{k: v for k, v in e.items() if k != "post"} for e in traces[0][:20]]})
+        ctx.traces_validated += accepted
+        ctx.note("traces_recorded", good)
+        ctx.note("traces_accepted", accepted)
+        ctx.note("trace_constants", {k: (sorted(v) if isinstance(v, set) else v) for k, v in consts.items()})
+    return job, evaluate
 
 
 # ---------------------------------------------------------------------- replay of a violation file
@@ -611,9 +626,18 @@ def replay(ctx, obj):
                     print("   raised %s: %s" % (type(ex).__name__, ex))
                     break
                 print("   ", h.project())
-            print("expected difference was:", obj["divergence"]["diff"])
+            print("recorded difference:", obj["divergence"]["diff"])
+            import json
+            from harness.tlaval import to_py
+            real = json.loads(json.dumps(to_py(h.project()), default=repr))
+            still = {k: {"spec": v["spec"], "code": real.get(k)} for k, v in obj["divergence"]["diff"].items()
+                     if k in real and real.get(k) != v["spec"]}
         finally:
             h.close()
+        if still:
+            ctx.violation("replayed: still differs: %s" % still, replay=obj, signature="replayed")
+        else:
+            print("the real objects now agree with the specification on these fields")
         return
     for e in obj.get("events", ()):
         print({k: v for k, v in e.items() if k != "post"})
